@@ -307,3 +307,116 @@ Proof.
     destruct (check_ack r) as [x|] eqn:Ec; [apply orb_true_r|].
     rewrite (success_only_if_acked _ _ _ _ Hr Ec). reflexivity.
 Qed.
+
+(* ---------- DeleteRules: the listing, then one DEL_RULE per rule with consecutive request numbers ---------- *)
+Lemma ack_cmd_steps s w ty data : sfaults w = [] ->
+  exists r rest, reply (next_seq s) (rscript w) = (r, rest) /\
+    ack_cmd s w ty data = ({| pending := pending s; clear_pid := clear_pid s; closed := closed s; nseq := next_seq s |},
+                           with_script w rest, check_ack r, [(ty, REQ_ACK, data)]).
+Proof.
+  intros Hf. unfold ack_cmd, do_send, next_seq. rewrite Hf. cbn [rscript].
+  destruct (reply ((nseq s + 1) mod 2 ^ 32) (rscript w)) as [r rest] eqn:E. exists r, rest. split; reflexivity.
+Qed.
+
+Lemma spec_deletes_model : forall rules q s w sent, sfaults w = [] -> next_seq s = q ->
+  q + N.of_nat (length rules) < 2^32 ->
+  match spec_deletes q (rscript w) (length rules) with
+  | Some None => (let '(_, _, e, _) := delete_all s w rules sent in e) = None
+  | Some (Some e') => (let '(_, _, e, _) := delete_all s w rules sent in e) = Some (EErrno e')
+  | None => True
+  end.
+Proof.
+  induction rules as [|r rules IH]; intros q s w sent Hf Hq Hb; cbn [spec_deletes length delete_all]; [reflexivity|].
+  destruct (spec_ack q (rscript w)) as [e rest| |] eqn:Ea; try exact I.
+  destruct (spec_ack_reply _ _ _ _ Ea) as (ty & d & Hr & Hc).
+  destruct (ack_cmd_steps s w AUDIT_DEL_RULE r Hf) as (r0 & rest0 & Hr0 & Hack). rewrite Hq, Hr in Hr0. injection Hr0 as <- <-.
+  rewrite Hack, Hc. destruct (Z.eqb e 0); [|reflexivity].
+  set (s1 := {| pending := pending s; clear_pid := clear_pid s; closed := closed s; nseq := next_seq s |}).
+  assert (Hq' : next_seq s1 = q + 1).
+  { unfold next_seq at 1. unfold s1. cbn [nseq]. rewrite Hq. apply N.mod_small. cbn [length] in Hb. lia. }
+  assert (Hb' : q + 1 + N.of_nat (length rules) < 2 ^ 32) by (cbn [length] in Hb; lia).
+  exact (IH (q + 1) s1 (with_script w rest) (sent ++ [(AUDIT_DEL_RULE, REQ_ACK, r)]) Hf Hq' Hb').
+Qed.
+
+Lemma get_rules_steps s w : sfaults w = [] ->
+  let q := next_seq s in
+  let '(r, rest) := reply q (rscript w) in
+  get_rules s w =
+    match check_ack r with
+    | Some e => ({| pending := pending s; clear_pid := clear_pid s; closed := closed s; nseq := q |}, with_script w rest, inl e, [(AUDIT_LIST_RULES, REQ_ACK, [])])
+    | None => let '(rr, rest') := collect_rules (S (length rest)) q rest [] in
+              ({| pending := pending s; clear_pid := clear_pid s; closed := closed s; nseq := q |}, with_script w rest', rr, [(AUDIT_LIST_RULES, REQ_ACK, [])])
+    end.
+Proof.
+  intros Hf. unfold get_rules, do_send, next_seq. rewrite Hf. cbn [rscript].
+  destruct (reply ((nseq s + 1) mod 2 ^ 32) (rscript w)) as [r rest]. destruct (check_ack r); [reflexivity|].
+  destruct (collect_rules (S (length rest)) ((nseq s + 1) mod 2 ^ 32) rest []) as [rr rest']. reflexivity.
+Qed.
+
+(* a listing cannot hold more rules than the script has events *)
+Lemma spec_next_shorter q : forall script run ty d rest, spec_next q script run = SMsg ty d rest -> (length rest < length script)%nat.
+Proof.
+  induction script as [|ev script IH]; intros run ty d rest H; cbn [spec_next] in H; [discriminate|].
+  destruct ev as [e|ty1 sq d1|]; [| |discriminate].
+  - destruct (transientZ e); [|discriminate]. destruct (run <? 9)%nat; [|discriminate].
+    apply IH in H. cbn [length]. lia.
+  - destruct ((sq =? 0) && negb (q =? 0)).
+    + apply IH in H. cbn [length]. lia.
+    + destruct (sq =? q); [|discriminate]. injection H as _ _ <-. cbn [length]. lia.
+Qed.
+Lemma spec_ack_shorter q script e rest : spec_ack q script = VAck e rest -> (length rest < length script)%nat.
+Proof.
+  unfold spec_ack. destruct (spec_next q script 0) as [ty d rest'| |] eqn:E; try discriminate.
+  destruct (ty =? UAPI_NLMSG_ERROR); [|discriminate]. destruct d as [|a [|b [|c [|x d']]]]; try discriminate.
+  intros H. injection H as _ <-. exact (spec_next_shorter _ _ _ _ _ _ E).
+Qed.
+Lemma spec_rules_len : forall fuel q script acc rules rest, spec_rules fuel q script acc = Some (Some (rules, rest)) ->
+  (length rules + length rest <= length acc + length script)%nat.
+Proof.
+  induction fuel as [|f IH]; intros q script acc rules rest H; cbn [spec_rules] in H; [discriminate|].
+  destruct (spec_next q script 0) as [ty d rest'| |] eqn:E; try discriminate.
+  pose proof (spec_next_shorter _ _ _ _ _ _ E) as Hs.
+  destruct (ty =? UAPI_NLMSG_DONE).
+  - injection H as <- <-. rewrite rev_length. lia.
+  - destruct (ty =? UAPI_AUDIT_LIST_RULES); [|discriminate]. apply IH in H. cbn [length] in H. lia.
+Qed.
+
+(* the checker numbers the deletes q+1, q+2, ... without wrapping; the theorem is stated where the client's numbers do not wrap either *)
+Theorem chk_c08_accepts_delete_rules s w : sfaults w = [] ->
+  next_seq s + 1 + N.of_nat (length (rscript w)) < 2^32 ->
+  chk_c08_call ODeleteRules (next_seq s) (rscript w) (result_of (snd (cstep s w ODeleteRules))) = true.
+Proof.
+  intros Hf Hb.
+  assert (Hlen : forall e rest rules rest', spec_ack (next_seq s) (rscript w) = VAck e rest ->
+     spec_rules (S (length rest)) (next_seq s) rest [] = Some (Some (rules, rest')) -> (length rules <= length (rscript w))%nat).
+  { intros e rest rules rest' Ha Hs. apply spec_ack_shorter in Ha. apply spec_rules_len in Hs. cbn [length] in Hs. lia. }
+  set (q := next_seq s) in *. set (script := rscript w) in *.
+  pose proof (get_rules_steps s w Hf) as HG. cbv zeta in HG. fold q script in HG.
+  cbn [chk_c08_call cstep].
+  destruct (spec_ack q script) as [e rest0| |] eqn:Ea.
+  - destruct (spec_ack_reply _ _ _ _ Ea) as (ty & d & Hr & Hc). rewrite Hr, Hc in HG.
+    destruct (Z.eqb e 0) eqn:Ee.
+    + pose proof (spec_rules_collect (S (length rest0)) q rest0 []) as HS.
+      destruct (spec_rules (S (length rest0)) q rest0 []) as [[[rules rest1]|]|] eqn:Esr.
+      * rewrite HS in HG. rewrite HG.
+        set (s1 := {| pending := pending s; clear_pid := clear_pid s; closed := closed s; nseq := q |}).
+        pose proof (spec_deletes_model rules (q + 1) s1 (with_script w rest1) [(AUDIT_LIST_RULES, REQ_ACK, [])]) as HD.
+        cbn [rscript with_script sfaults] in HD.
+        assert (Hl : (length rules <= length script)%nat) by (eapply Hlen; eauto).
+        assert (Hq1 : next_seq s1 = q + 1).
+        { unfold next_seq, s1. cbn [nseq]. apply N.mod_small. lia. }
+        specialize (HD Hf Hq1). assert (Hb2 : q + 1 + N.of_nat (length rules) < 2 ^ 32) by lia. specialize (HD Hb2).
+        destruct (delete_all s1 (with_script w rest1) rules [(AUDIT_LIST_RULES, REQ_ACK, [])]) as [[[s2 w2] e2] ws2].
+        cbn [snd result_of fst].
+        destruct (spec_deletes (q + 1) rest1 (length rules)) as [[e'|]|]; [| |reflexivity].
+        -- rewrite HD. apply cres_eqb_refl_fail.
+        -- rewrite HD. cbn [cres_eqb]. apply N.eqb_refl.
+      * destruct HS as (e' & r' & HS). rewrite HS in HG. rewrite HG. reflexivity.
+      * reflexivity.
+    + rewrite HG. cbn [snd result_of fst]. apply cres_eqb_refl_fail.
+  - destruct (spec_ack_foreign _ _ Ea) as [r' Hr]. rewrite Hr in HG. cbn [check_ack] in HG. rewrite HG. reflexivity.
+  - destruct (reply q script) as [r rest] eqn:Hr. unfold unacked_must_fail.
+    destruct (check_ack r) as [x|] eqn:Ec.
+    + rewrite HG. cbn [snd result_of fst is_fail]. apply orb_true_r.
+    + rewrite (success_only_if_acked _ _ _ _ Hr Ec). reflexivity.
+Qed.
